@@ -110,6 +110,14 @@ fn build(c: &mut Ctx, which: u64, m: &Model) -> Result<PersistentState, String> 
                 delete_all(&mut child, &mut c.loader, &dk)?;
                 drop(child);
             }
+            if c.r.chance(1, 2) {
+                // freezing directly after the rollback (no read in between) must give the contents of the checkpoint
+                let before: Model = items[..half].iter().cloned().collect();
+                let (h, _) = reference_hash(&before);
+                let p = st.freeze(&mut c.loader, &mut EmptyCollector);
+                expect_hash(c, &p, &h, "history D: freeze directly after a rolled-back generation")?;
+                check_persistent(&p, &mut c.loader, &before, "history D: freeze directly after a rolled-back generation")?;
+            }
             // a generation that is kept
             let mut child = st.make_fresh_generation(&mut c.loader);
             insert_all(&mut child, &mut c.loader, &items[half..])?;
